@@ -1,0 +1,25 @@
+//go:build verif
+
+package pkg
+
+import (
+	internal "github.com/aml-org/amf-custom-validator/internal/validator"
+)
+
+// VerifGenerateRego exposes the generated policy text to verification harnesses (compiled only with the `verif` tag).
+func VerifGenerateRego(profileText string) (string, error) {
+	unit, err := internal.GenerateRego(profileText, false, nil)
+	if err != nil {
+		return "", err
+	}
+	return unit.Code, nil
+}
+
+// VerifNormalize exposes the encoded normalised input to verification harnesses (compiled only with the `verif` tag).
+func VerifNormalize(jsonldText string) (string, error) {
+	normalized, err := internal.ProcessInput(jsonldText, false, nil)
+	if err != nil {
+		return "", err
+	}
+	return internal.Encode(normalized), nil
+}
